@@ -81,7 +81,7 @@ class CurProc(plumpy.Process):
             self.call_soon(_cb(self, op[1]))
         elif kind == 'asoon':
             # a coroutine callback: it may start while the step that scheduled it is still in flight and outlive it
-            self.call_soon(_acb(self, op[1], op[2]))
+            self.call_soon(_AsyncCallable(self, op[1], op[2]) if len(op) > 3 and op[3] == 'obj' else _acb(self, op[1], op[2]))
         elif kind == 'out':
             self.out(op[1], op[2])
         elif kind == 'parent_ctl':
@@ -96,7 +96,10 @@ class CurProc(plumpy.Process):
         elif kind == 'parent_soon':
             parent = PROCS.get(self.raw_inputs.get('parent'))
             if parent is not None and not parent.has_terminated():
-                parent.call_soon(_cb(parent, 'from-child-%s' % self.raw_inputs['name']))
+                tag = 'from-child-%s' % self.raw_inputs['name']
+                # (the callback is a plain function, a coroutine function or an object with an async __call__, in turn)
+                kind = len(tag + op[1]) % 3
+                parent.call_soon(_cb(parent, tag) if kind == 0 else (_acb(parent, tag, 2) if kind == 1 else _AsyncCallable(parent, tag, 2)))
 
     async def _segment(self, i):
         sample(self, 'step', 'seg%d:entry' % i)
@@ -157,6 +160,20 @@ def _acb(proc, tag, nyields):
 
     callback.__name__ = 'acb_%s' % tag
     return callback
+
+
+class _AsyncCallable:
+    """A callback that is an object with an ``async def __call__`` (accepted by call_soon like a coroutine function)."""
+
+    def __init__(self, proc, tag, nyields):
+        self.proc, self.tag, self.nyields = proc, tag, nyields
+        self.__name__ = 'acallable_%s' % tag
+
+    async def __call__(self):
+        sample(self.proc, 'callback', self.tag + ':obj-entry')
+        for _k in range(self.nyields):
+            await asyncio.sleep(0)
+            sample(self.proc, 'callback', '%s:obj-after-await' % self.tag)
 
 
 def _hook(name):
